@@ -152,10 +152,15 @@ Inductive mcase :=
 | mkd (id : int) (cfg : bool) (hc hd : raw_hasher) (thl thm : raw_ttab)
       (rf : raw_floats) (ds : dataset) (mo : rmerk) (steps : list rstep)
   (* shared-tree scenario: the tree is script state (Script.grun) *)
-| mks (id : int) (hc hd : raw_hasher) (thl thm : raw_ttab) (gsteps : list rgstep).
+| mks (id : int) (hc hd : raw_hasher) (thl thm : raw_ttab) (gsteps : list rgstep)
+  (* SetHasher history: MerklizeJSONLD WITHOUT WithHasher while the package default is hd,
+     then merklize.SetHasher(hd2), then the caller steps (Script.run with D 0 = hd, D i = hd2) *)
+| mkh (id : int) (hd hd2 : raw_hasher) (thl thm : raw_ttab)
+      (es : list rentry) (mo : rmerk) (steps : list rstep).
 Definition mc_id (c : mcase) : int :=
   match c with
   | mkm id _ _ _ _ _ _ _ _ => id | mkd id _ _ _ _ _ _ _ _ _ => id | mks id _ _ _ _ _ => id
+  | mkh id _ _ _ _ _ _ _ => id
   end.
 
 Fixpoint gagree (T : tparams) (Hd Hc : hasher) (st : shared) (gs : list rgstep) : bool :=
@@ -220,6 +225,20 @@ Definition case_agree (q : Z) (c : mcase) : bool :=
       let tm := mk_ttab thm in
       let T := mktp (fun a b => tlook2 a b tl) (fun a b => tlook2 a b tm) max_levels q in
       gagree T (mk_hasher hd) (mk_hasher hc) shared_init gsteps
+  | mkh _ hd hd2 thl thm es mo steps =>
+      let Hd := mk_hasher hd in
+      let Hd2 := mk_hasher hd2 in
+      let tl := mk_ttab thl in
+      let tm := mk_ttab thm in
+      let T := mktp (fun a b => tlook2 a b tl) (fun a b => tlook2 a b tm) max_levels q in
+      let es' := map (wrap_entry Hd (Some Hd)) (map entry_of es) in
+      match merklize_from_entries T Hd Hd None es', mo with
+      | Ok m, RMOk root =>
+          Z.eqb (mz_root T m) (z_of_limbs root)
+          && forallb (fun r => obs_agree (run_step T Hd2 m (step_of r)) r) steps
+      | Err _, RMErr => true
+      | _, _ => false
+      end
   end.
 
 Definition mmismatches (q : limbs) (cs : list mcase) : list int :=
